@@ -191,6 +191,15 @@ func multiRun(rng *rand.Rand, n int, steps int) {
 			var k int
 			fmt.Sscanf(e.Args[1], "%d", &k)
 			cgMember[e.Args[0]] = k
+		}
+	}
+	// Generations and connections come and go during a run and the recorder's ids are addresses, which the allocator
+	// hands out again: their owner is looked up in the SAME pass that reads the events, so an id means "the most recent
+	// object created under this id" (G.New / connect always precede the object's other events).  ConsumerGroups live for
+	// the whole run, so their ids are unique and the pre-pass above is sound.
+	per := make([][]kafka.VerifEvent, len(ms))
+	for _, e := range evs {
+		switch {
 		case e.Kind == "G.New":
 			genMember[e.Args[1]] = cgMember[e.Args[0]]
 		case e.Kind == "M.Call" && e.Args[1] == "connect":
@@ -200,9 +209,6 @@ func multiRun(rng *rand.Rand, n int, steps int) {
 			}
 			connMember[e.Args[0]] = k
 		}
-	}
-	per := make([][]kafka.VerifEvent, len(ms))
-	for _, e := range evs {
 		k, ok := -1, false
 		switch {
 		case strings.HasPrefix(e.Kind, "CG."):
